@@ -46,6 +46,10 @@ pub struct VolCfg {
     /// specification allows)
     #[serde(default)]
     pub stale_free: Option<u32>,
+    /// library-formatted volumes: the formatter is not told the sector count, it measures the storage (which then has
+    /// no canary sectors behind the volume: pad_sectors must be 0)
+    #[serde(default)]
+    pub measure: bool,
 }
 
 #[derive(Clone, Debug, Serialize, Deserialize, PartialEq, Eq, Hash)]
@@ -168,6 +172,7 @@ impl VolCfg {
             short_io: 0,
             populate: None,
             stale_free: None,
+            measure: false,
         }
     }
     /// generated-geometry variants (what the library's formatter cannot produce)
@@ -215,6 +220,7 @@ impl VolCfg {
             short_io: 0,
             populate: None,
             stale_free: None,
+            measure: false,
         }
     }
     pub fn cluster_size(&self) -> u32 {
@@ -282,8 +288,10 @@ fn build_base(cfg: &VolCfg) -> Result<Store, String> {
             .bytes_per_sector(cfg.bps)
             .bytes_per_cluster(cfg.cluster_size())
             .fat_type(fat_type_of(cfg.fat))
-            .fats(cfg.fats)
-            .total_sectors(cfg.total_sectors);
+            .fats(cfg.fats);
+        if !(cfg.measure && cfg.pad_sectors == 0) {
+            opts = opts.total_sectors(cfg.total_sectors);
+        }
         if cfg.fat != 32 {
             opts = opts.max_root_dir_entries(cfg.root_entries);
         }
